@@ -132,6 +132,17 @@ template<class L, class R, class Tag, bool RhsBuiltin = false>
                 continue;
             }
             vf::outcome(tie ? "ok_tie" : (inexact ? (i128(a) / i128(b) == q ? "ok_inexact_trunc" : "ok_inexact_adjusted") : "ok_exact"));
+            // the internal entry point the operator dispatches to, called directly on the bare operands
+            if constexpr (requires { cnl::_impl::divide<Tag, Tag, L, R>{}(a, b); }) {
+                i128 got2 = 0;
+                vf::Outcome o2 = vf::run([&] { got2 = i128(cnl::_impl::divide<Tag, Tag, L, R>{}(a, b)); });
+                vf::validated();
+                if (!o2.ok() || got2 != q) {
+                    vf::outcome(o2.ok() ? "wrong_value_impl_divide" : o2.str());
+                    vf::violation(std::string("impl_divide/") + (o2.ok() ? "value" : o2.str()) + "/" + quad + "/" + cls, id(), id() + ": _impl::divide gives " + (o2.ok() ? vf::to_s(got2) : o2.str()) + ", expected " + vf::to_s(q));
+                } else
+                    vf::outcome("ok_impl_divide");
+            }
         }
     }
 }
